@@ -197,6 +197,8 @@ ASM_HEADER = """
             emitted_one(old(self).out.code@, final(self).out.code@) ==> new_inst(old(self).out.code@, final(self).out.code@).protected == old(self).protected, //@ C18:asm-protected
             emitted_one(old(self).out.code@, final(self).out.code@) ==> new_inst(old(self).out.code@, final(self).out.code@).mnemonic == eff_mnemonic(mnemonic, *operand), //@ C13,C18:asm-mnemonic
             emitted_one(old(self).out.code@, final(self).out.code@) ==> legal(new_inst(old(self).out.code@, final(self).out.code@).mnemonic, assembler_mode(new_inst(old(self).out.code@, final(self).out.code@).mnemonic, kind_of_text(new_inst(old(self).out.code@, final(self).out.code@).dasm_operand@), sym_zp(old(self), *operand))), //@ C13:legal
+            // `(p),Y` exists for a pointer in page zero only
+            emitted_one(old(self).out.code@, final(self).out.code@) ==> (kind_of_text(new_inst(old(self).out.code@, final(self).out.code@).dasm_operand@) is IndY ==> sym_zp(old(self), *operand)), //@ C13:indirect-pointer-in-zero-page
             emitted_one(old(self).out.code@, final(self).out.code@) ==> new_inst(old(self).out.code@, final(self).out.code@).nb_bytes as nat == mode_len(assembler_mode(new_inst(old(self).out.code@, final(self).out.code@).mnemonic, kind_of_text(new_inst(old(self).out.code@, final(self).out.code@).dasm_operand@), sym_zp(old(self), *operand))), //@ C04,C03:nb
             emitted_one(old(self).out.code@, final(self).out.code@) ==> (operand is Tmp ==> new_inst(old(self).out.code@, final(self).out.code@).dasm_operand@ == "cctmp"@), //@ C13:text-tmp
             emitted_one(old(self).out.code@, final(self).out.code@) ==> (operand is Label ==> new_inst(old(self).out.code@, final(self).out.code@).dasm_operand@ == operand->Label_0@), //@ C13:text-label
